@@ -388,6 +388,8 @@ def _container_stubs(kind, log, members):
 
         def __init__(self, nm, size):
             self.filename, self.file_size = nm, size
+            # a well-compressing member: the compressed size says nothing about the cost
+            self.compress_size = 1
 
         def is_dir(self):
             return False
@@ -790,7 +792,16 @@ class _Acct:
     """allocation ledger: one entry per executed ``sequence * count`` of repository code"""
 
     def __init__(self):
-        self.events = []        # (file, function, line, len(seq), count, allocated)
+        self.events = []        # (file, function, line, blank, len(seq), count, allocated)
+
+
+def _blank(x):
+    """the repeated thing carries no value (None / empty text, nested): what the ODS caps are about"""
+    if x is None:
+        return True
+    if isinstance(x, (list, tuple)):
+        return all(_blank(y) for y in x)
+    return isinstance(x, (str, bytes)) and len(x) == 0
 
 
 def _repeat(seq, count):
@@ -799,7 +810,8 @@ def _repeat(seq, count):
     later emptiness / all-None test to come out as on the full sequence)"""
     f = sys._getframe(2)
     fn = f.f_code.co_filename
-    site = (fn[len(S.REPO) + 1:] if fn.startswith(S.REPO + "/") else fn, f.f_code.co_name, f.f_lineno)
+    site = (fn[len(S.REPO) + 1:] if fn.startswith(S.REPO + "/") else fn, f.f_code.co_name, f.f_lineno,
+            _blank(seq))
     if count <= 0:
         _ACCT.events.append(site + (len(seq), count, 0))
         return seq[:0]
@@ -888,9 +900,9 @@ def _xml_bytes(elem, attrs):
 
 def _k3_judge(ctx, input_bytes, extra=None):
     K = 0 if ctx.perturb == "zero_multiple" else ctx.params["K"]
-    for (fn, func, line, seqlen, count, alloc) in _ACCT.events:
+    for (fn, func, line, blank, seqlen, count, alloc) in _ACCT.events:
         ctx.require(alloc <= K * input_bytes, "allocation-exceeds-multiple-of-input",
-                    site=func, file=fn, line=line, K=K, **(extra or {}))
+                    site=func, file=fn, line=line, blank=blank, K=K, **(extra or {}))
 
 
 def _k3_ods(ctx):
@@ -1187,6 +1199,84 @@ def _k4_targets():
 
 # ---------------------------------------------------------------------------------------
 
+# =======================================================================================
+# K5  XML parse sites: entity declarations must not amplify
+# =======================================================================================
+
+def _xml_parse_sites():
+    """functions of the repository that call an XML parser entry point (AST scan, so a new
+    parse site joins automatically)"""
+    import ast
+    import importlib
+    import os
+    import pkgutil
+    import sharepoint2text
+    sites = []
+    root = os.path.dirname(sharepoint2text.__file__)
+    for dirpath, _, files in os.walk(root):
+        if "tests" in dirpath:
+            continue
+        for fn in files:
+            if not fn.endswith(".py"):
+                continue
+            path = os.path.join(dirpath, fn)
+            try:
+                tree = ast.parse(open(path, encoding="utf-8").read())
+            except Exception:
+                continue
+            for node in ast.walk(tree):
+                if isinstance(node, ast.FunctionDef):
+                    for c in ast.walk(node):
+                        if isinstance(c, ast.Call) and isinstance(c.func, ast.Attribute) and \
+                                c.func.attr in ("fromstring", "XML", "parse", "iterparse", "fromstringlist") and \
+                                isinstance(c.func.value, ast.Name) and c.func.value.id in ("ET", "ElementTree", "etree"):
+                            mod = path[len(os.path.dirname(root)) + 1:-3].replace(os.sep, ".")
+                            sites.append((mod, node.name))
+    return sorted(set(sites))
+
+
+def k5_xml_entities(ctx):
+    """every XML parse site of the repository, fed a small document that declares nested
+    internal entities: the parsed text must stay within a fixed multiple of the input (or the
+    document is refused)"""
+    import importlib
+    sites = _xml_parse_sites()
+    si = ctx.choice("site", len(sites))
+    modname, fname = sites[si]
+    depth = 1 + ctx.choice("entity_nesting", 3)
+    fan = [2, 10, 30][ctx.choice("fanout", 3)]
+    decl = ['<!ENTITY e0 "' + "x" * 20 + '">']
+    for d in range(1, depth):
+        decl.append('<!ENTITY e%d "%s">' % (d, ("&e%d;" % (d - 1)) * fan))
+    xml = ('<?xml version="1.0"?><!DOCTYPE r [' + "".join(decl) + ']><r xmlns:manifest="urn:x">' +
+           ("&e%d;" % (depth - 1)) * fan + "</r>")
+    mod = importlib.import_module(modname)
+    fn = getattr(mod, fname)
+
+    class FakeZip:
+        def read(self, path):
+            return xml.encode()
+    K = 4 if ctx.perturb != "no_bound" else 0
+    try:
+        if fname == "read_zip_xml_root":
+            root = fn(FakeZip(), "content.xml")
+        elif fname == "_manifest_declares_encryption":
+            fn(xml)
+            ctx.require(True, "bounded")
+            return          # returns a bool only; nothing is materialised for the caller
+        else:
+            ctx.fail("unknown-xml-parse-site-no-driver", site=f"{modname}.{fname}")
+            return
+    except Exception:
+        if ctx.perturb == "no_bound":
+            ctx.fail("twin")
+        ctx.require(True, "refused")
+        return              # refused: bounded
+    total = sum(len(t) for t in root.itertext())
+    ctx.require(total <= K * len(xml), "xml-entity-amplification", site=f"{modname}.{fname}", input_bytes=len(xml),
+                text_chars=total, nesting=depth, fanout=fan)
+
+
 KERNELS = [
     Kernel("K1", "explicit size limits are exact (refuse <=> size > limit; 0 disables read_file's check) and a "
                  "refusal precedes any read", k1, targets=_k1_targets, parts=_k1_parts,
@@ -1274,6 +1364,11 @@ KERNELS = [
                         "output cannot exceed what is declared"],
            outside=["dictionary memory allocated by liblzma for the declared dictionary size"],
            timeout={"quick": 100, "thorough": 600}),
+    Kernel("K5", "XML parse sites refuse or bound internal-entity amplification", k5_xml_entities,
+           targets=lambda: [__import__("sharepoint2text.parsing.extractors.util.zip_utils", fromlist=["x"]).read_zip_xml_root],
+           strength="structure", core=False, perturb=["no_bound"],
+           choices=["parse site (AST scan of the repository)", "entity nesting depth 1..3", "fan-out 2/10/30"],
+           outside=["external entities / network DTDs (not resolvable in this sandbox)"]),
 ]
 
 META = {
